@@ -318,8 +318,7 @@ def make_mu_loop(n_it):
         ctx.record('paths', PROVED if ps else ERROR, 'B', 0, '%d paths' % len(ps))
     return ob
 
-for _n in (0, 1, 2):
-    make_mu_loop(_n)
+# the bounded unrolling (max_iterations = 0, 1, 2) is superseded by the loop contract C05.loop_contract.convert_Mu_M1_M2.* below and no longer registered
 
 # ------------------------------------------------------------------------------------------------ preservation of the fitted masses by the later steps
 from gm2v.cxx import ExprStmt, Call, Id, Member
@@ -523,3 +522,420 @@ def fidelity(tier, seed):
     """A-FRONT guard: MSSM a_mu and mass-matrix functions, interpreter (float mode) vs compiled real code on real spectra"""
     from gm2v import fidelity as _fid
     return _fid.mssm_model_guard(seed=seed)
+
+# ------------------------------------------------------------------------------------------------ loop contracts (unbounded in the iteration count)
+from gm2v.interp import LoopContract, PathEnd
+from gm2v.values import UnknownBool
+
+DBL_MAX = Fr(int(1.7976931348623157e308))
+
+def smuon_stubs(cnt):
+    """callee contract of calculate_MSm for the me2 iteration: it writes MSm and ZM (arbitrary new values: nothing about them is needed) and the tachyon flag"""
+    def calc_MSm(it, a, this):
+        cnt[0] += 1
+        this.f['MSm'] = Mat(2, 1, [[z3.Real('MSm!%d!%d' % (cnt[0], i))] for i in range(2)], 'array', False)
+        this.f['ZM'] = rmat('zm!%d!' % cnt[0], 2, 2)
+        return None
+    return {'MSSMNoFV_onshell_mass_eigenstates::calculate_MSm': calc_MSm, 'calculate_MSm': calc_MSm}
+
+def right_index_of(it, ZM):
+    """the REAL find_right_like_smuon on the given mixing matrix (forks on its comparison)"""
+    return it.concretize_index(it.call('find_right_like_smuon', [ZM], file=OS), 2)
+
+def me2_invariant(it, fr):
+    f = fr.this.f
+    ri = it.concretize_index(fr.lookup('right_index').v, 2)
+    goal = fr.lookup('MSm_goal').v
+    pole = fr.lookup('MSm_pole_sorted').v
+    prec = fr.lookup('precision').v
+    n_it = fr.lookup('it').v
+    k = right_index_of(it, f['ZM'])
+    d = z3real(f['MSm'].get(ri, 0)) - z3real(goal.get(ri, 0))
+    return [('right_index is the right-like smuon of the current mixing matrix', k == ri),
+            ('the goal of the right-like smuon is its (sorted) pole mass', z3real(goal.get(ri, 0)) == z3real(pole.get(ri, 0))),
+            ('precision is the distance of the current right-like smuon mass from its goal', z3real(prec) == z3.If(d >= 0, d, -d)),
+            ('iteration counter >= 0', z3real(n_it) >= 0)]
+
+@obligation('C05.loop_contract.convert_me2_fpi_modify', fns=[(OS, 'MSSMNoFV_onshell::convert_me2_fpi_modify'), (OS, 'find_right_like_smuon')], replay=lambda m, wd: sweep_replay(m, wd))
+def _(ctx):
+    """LOOP CONTRACT (holds for any number of iterations, no unrolling) of the fixed-point iteration for mse2(2,2):
+    invariant: right_index == find_right_like_smuon(current ZM)  &&  MSm_goal(right_index) == sorted pole mass(right_index)  &&
+               precision == |MSm(right_index) - MSm_goal(right_index)|;   modifies: right_index, MSm_goal, precision, it, this->me2, this->MSm, this->ZM only;
+               variant: max_iterations - it.
+    ensures (function): the value returned is DBL_MAX (a non-finite value appeared) or exactly |MSm(k) - sorted pole mass(k)| of the FINAL spectrum with
+    k = find_right_like_smuon(final ZM) -- the achieved precision handed to convert_me2 is the distance of the final right-like smuon from its pole mass.
+    Callee calculate_MSm by contract (writes MSm, ZM); finiteness tests undetermined (both outcomes explored)."""
+    goal, maxit = z3.Real('precision_goal'), z3.Real('max_iterations')
+    cnt = [0]
+    stubs = smuon_stubs(cnt)
+    stubs.update(flag_stubs(None))
+    it = Interp(ctx.w, mode='sym', stubs=stubs, div_sides=False)
+    it.nonfinite_unknown = True
+    it.loop_contracts[('MSSMNoFV_onshell::convert_me2_fpi_modify', 0)] = LoopContract(
+        modifies=['right_index', 'MSm_goal', 'precision', 'it', 'this.me2', 'this.MSm', 'this.ZM'],
+        invariant=me2_invariant, choices={'right_index': [0, 1]},
+        variant=lambda it_, fr: maxit - z3real(fr.lookup('it').v))
+    def thunk():
+        m = model(it)
+        m.f['verbose_output'] = False
+        pole = deep_copy(m.f['physical'].f['MSm'])
+        r = it.call_method(m, 'convert_me2_fpi_modify', [goal, maxit])
+        k = right_index_of(it, m.f['ZM'])
+        return (r, k, deep_copy(m.f['MSm']), pole)
+    ps = it.run_paths(thunk, max_paths=400)
+    ctx.merge_rules(it)
+    n_ret = n_body = 0
+    for j, (s, r, e) in enumerate(ps):
+        tag = 'path%d' % j
+        if e is not None:
+            ctx.record(tag, FAILED, 'B', 0, 'unexpected exception %s' % e)
+            continue
+        # side obligations: invariant on entry / preserved, frame, variant (and nothing else: div_sides off)
+        for i, (guards, cond, desc) in enumerate(s.sides):
+            ctx.prove('%s.side%d' % (tag, i), list(guards) + list(s.axioms), cond if is_sym(cond) else z3.BoolVal(bool(cond)), kind='loop:' + desc, check_vacuity=False)
+        if isinstance(r, PathEnd):
+            n_body += 1
+            continue
+        n_ret += 1
+        ret, k, MSm, pole = r
+        p0, p1 = z3real(pole.get(0, 0)), z3real(pole.get(1, 0))
+        sorted_pole = [z3.If(p0 <= p1, p0, p1), z3.If(p0 <= p1, p1, p0)]
+        d = z3real(MSm.get(k, 0)) - sorted_pole[k]
+        claim = z3.Or(z3real(ret) == to_z3(DBL_MAX), z3real(ret) == z3.If(d >= 0, d, -d))
+        ctx.prove('%s.returns_distance_of_final_spectrum' % tag, list(s.pc) + list(s.axioms), claim, kind='post', check_vacuity=False)
+    ctx.record('paths', PROVED if n_ret >= 2 and n_body >= 1 else FAILED, 'B', 0, '%d paths return, %d paths check one arbitrary iteration of the body' % (n_ret, n_body))
+
+SWEEP_REPLAY = r'''
+#include "gm2calc/MSSMNoFV_onshell.hpp"
+#include "gm2calc/gm2_error.hpp"
+#include <cstdio>
+#include <cmath>
+#include <cstdint>
+#include <algorithm>
+// warn-or-fit on a deterministic sweep: on-shell points -> their spectrum as pole masses -> guesses perturbed by up to 5% -> convert_to_onshell.
+// Concentrated where the left/right smuon parameters are a few per cent apart (the mixing flips during the iteration there).
+// Tolerance: max(precision goal, 0.02 GeV) for charginos, neutralino, sneutrino; 0.5 GeV for the right-like smuon, because the listed OPEN finding
+// (Yukawa update after the smuon fit) moves it by up to 0.18 GeV on this sweep at large tan(beta) mu / m_smuon^2; a wrongly selected smuon is GeV off.
+static std::uint64_t S = 88172645463325252ULL;
+static double uni() { S = S * 6364136223846793005ULL + 1442695040888963407ULL; return double(S >> 11) / 9007199254740992.0; }
+static double uni(double a, double b) { return a + (b - a) * uni(); }
+static gm2calc::MSSMNoFV_onshell base() {
+   gm2calc::MSSMNoFV_onshell m; const double Pi = 3.141592653589793;
+   m.set_alpha_MZ(0.0077552); m.set_alpha_thompson(0.00729735); m.set_g3(std::sqrt(4 * Pi * 0.1184));
+   m.get_physical().MFt = 173.34; m.get_physical().MFb = 4.18; m.get_physical().MFm = 0.1056583715; m.get_physical().MFtau = 1.777;
+   m.get_physical().MVWm = 80.385; m.get_physical().MVZ = 91.1876; return m; }
+static void fill(gm2calc::MSSMNoFV_onshell& m, double tb, double mu, double m1, double m2, double ml, double me) {
+   const Eigen::Matrix<double,3,3> U = Eigen::Matrix<double,3,3>::Identity();
+   m.set_TB(tb); m.set_Mu(mu); m.set_MassB(m1); m.set_MassWB(m2); m.set_MassG(2000);
+   m.set_mq2(3000. * 3000 * U); m.set_md2(3000. * 3000 * U); m.set_mu2(3000. * 3000 * U); m.set_ml2(1000. * 1000 * U); m.set_me2(1000. * 1000 * U);
+   m.set_ml2(1, 1, ml * ml); m.set_me2(1, 1, me * me); m.set_Au(2, 2, 0); m.set_Ad(2, 2, 0); m.set_Ae(1, 1, 0); m.set_Ae(2, 2, 0); m.set_MA0(1500); m.set_scale(1000); }
+template <class M> static int right_smuon(const M& Z) { return std::abs(Z(0,1)) > std::abs(Z(1,1)) ? 0 : 1; }
+template <class M> static int bino(const M& Z) { int k = 0; for (int i = 1; i < 4; i++) if (std::abs(Z(i,0)) > std::abs(Z(k,0))) k = i; return k; }
+int main() {
+   int bad = 0, checked = 0, warned = 0, total = 0;
+   for (int n = 0; n < 400; n++) for (double eps : {1e-4, 1e-8}) {
+      const double tb = uni(2, 60), sg1 = uni() < .5 ? -1 : 1, sg2 = uni() < .5 ? -1 : 1, sg3 = uni() < .5 ? -1 : 1;
+      const double mu = sg1 * uni(150, 2000), m1 = sg2 * uni(100, 1500), m2 = sg3 * uni(150, 2000);
+      const double ml = uni(150, 2500), me = (n % 2) ? ml * uni(0.93, 1.07) : uni(150, 2500);
+      total++;
+      gm2calc::MSSMNoFV_onshell os = base(); fill(os, tb, mu, m1, m2, ml, me);
+      try { os.calculate_masses(); } catch (const gm2calc::Error&) { continue; }
+      const int r0 = right_smuon(os.get_ZM()), b0 = bino(os.get_ZN());
+      gm2calc::MSSMNoFV_onshell m = base();
+      fill(m, tb, mu * uni(0.95, 1.05), m1 * uni(0.95, 1.05), m2 * uni(0.95, 1.05), ml * uni(0.95, 1.05), me * uni(0.95, 1.05));
+      m.get_physical().MSvmL = os.get_MSvmL(); m.get_physical().MSm(0) = os.get_MSm(1 - r0); m.get_physical().MSm(1) = os.get_MSm(r0);
+      m.get_physical().MChi = os.get_MChi(); m.get_physical().ZN = os.get_ZN(); m.get_physical().MCha = os.get_MCha(); m.get_physical().MAh(1) = 1500;
+      try { m.convert_to_onshell(eps, 1000); } catch (const gm2calc::Error&) { continue; }
+      if (m.get_problems().have_warning()) { warned++; continue; }
+      checked++;
+      const double tol = std::max(eps, 0.02);
+      const int r = right_smuon(m.get_ZM()), b = bino(m.get_ZN());
+      const double d_cha = (m.get_MCha() - os.get_MCha()).abs().maxCoeff(), d_chi = std::abs(m.get_MChi(b) - os.get_MChi(b0));
+      const double d_snu = std::abs(m.get_MSvmL() - os.get_MSvmL()), d_smu = std::abs(m.get_MSm(r) - os.get_MSm(r0));
+      if (!(d_cha <= tol && d_chi <= tol && d_snu <= tol && d_smu <= std::max(tol, 0.5))) {
+         if (bad++ < 5) std::printf("OFF (no warning, goal %.0e): TB=%.4g Mu=%.6g M1=%.6g M2=%.6g msl=%.8g mse=%.8g: |dMCha|=%.3g |dMChi(bino)|=%.3g |dMSvm|=%.3g |dMSm(right-like)|=%.3g GeV\n",
+                                eps, tb, mu, m1, m2, ml, me, d_cha, d_chi, d_snu, d_smu);
+      }
+   }
+   std::printf("%d points, %d warned, %d checked, %d off\n", total, warned, checked, bad);
+   return bad ? 1 : 0;
+}
+'''
+
+def sweep_replay(model_, wd):
+    from gm2v import native
+    import subprocess
+    exe = native.build_against_library(wd, SWEEP_REPLAY)
+    r = subprocess.run([exe], capture_output=True, text=True, timeout=1200)
+    return r.returncode == 1, r.stdout.strip()[-3000:]
+
+# ---- Mu / M1 / M2 iteration -------------------------------------------------------------------------------------------------------------------------
+def spectrum_of(f):
+    """the chargino/neutralino spectrum as an (uninterpreted) FUNCTION of the current parameters: callee contract of calculate_MCha/MChi/DRbar_masses"""
+    pars = [z3real(f[n]) for n in ('MassB', 'MassWB', 'Mu', 'g1', 'g2', 'vd', 'vu')]
+    key = tuple(p.get_id() for p in pars)
+    if key in _SPEC_CACHE:
+        return {k: deep_copy(v) for k, v in _SPEC_CACHE[key][1].items()}
+    U = lambda name: _spec_fn(name, len(pars))(*pars)
+    cm = lambda name, r, c: Mat(r, c, [[Cx(U('%s_%d%d_re' % (name, i, j)), U('%s_%d%d_im' % (name, i, j))) for j in range(c)] for i in range(r)], 'matrix', True)
+    sp = {'MCha': Mat(2, 1, [[U('MCha_%d' % i)] for i in range(2)], 'array', False),
+          'MChi': Mat(4, 1, [[U('MChi_%d' % i)] for i in range(4)], 'array', False),
+          'UM': cm('UM', 2, 2), 'UP': cm('UP', 2, 2), 'ZN': cm('ZN', 4, 4)}
+    _SPEC_CACHE[key] = (pars, sp)       # pars kept alive so that the ids stay unique
+    return {k: deep_copy(v) for k, v in sp.items()}
+
+_SPEC_CACHE = {}
+_SPEC_FN = {}
+def _spec_fn(name, n):
+    if name not in _SPEC_FN:
+        _SPEC_FN[name] = z3.Function(name, *([z3.RealSort()] * (n + 1)))
+    return _SPEC_FN[name]
+
+def functional_spectrum_stubs():
+    def calc_cha(it, a, this):
+        sp = spectrum_of(this.f)
+        for n in ('MCha', 'UM', 'UP'):
+            this.f[n] = sp[n]
+        return None
+    def calc_chi(it, a, this):
+        sp = spectrum_of(this.f)
+        for n in ('MChi', 'ZN'):
+            this.f[n] = sp[n]
+        return None
+    def calc_all(it, a, this):
+        calc_cha(it, a, this); calc_chi(it, a, this)
+        return None
+    st = {}
+    for pre in ('', 'MSSMNoFV_onshell_mass_eigenstates::'):
+        st[pre + 'calculate_MCha'] = calc_cha
+        st[pre + 'calculate_MChi'] = calc_chi
+        st[pre + 'calculate_DRbar_masses'] = calc_all
+    return st, calc_all
+
+def first_argmax(ZN, idx):
+    """idx is the FIRST index with maximal |ZN(i,0)|^2 (what Eigen's maxCoeff(&idx) returns; contract of detail::find_bino_like_neutralino, C05.selection.*)"""
+    m = [mod2(ZN.get(i, 0)) for i in range(4)]
+    return z3.And(*([m[i] < m[idx] for i in range(idx)] + [m[i] <= m[idx] for i in range(idx + 1, 4)]))
+
+def absz_(t):
+    return z3.If(t >= 0, t, -t)
+
+def mu_precision(MCha_goal, MCha, MChi_goal, MChi, idx):
+    d0 = absz_(z3real(MCha_goal.get(0, 0)) - z3real(MCha.get(0, 0)))
+    d1 = absz_(z3real(MCha_goal.get(1, 0)) - z3real(MCha.get(1, 0)))
+    dc = z3.If(d0 >= d1, d0, d1)
+    dn = absz_(z3real(MChi_goal.get(idx, 0)) - z3real(MChi.get(idx, 0)))
+    return z3.If(dc >= dn, dc, dn)
+
+def mat_eqs(a, b):
+    out = []
+    for x, y in zip(a.elems(), b.elems()):
+        if isinstance(x, Cx) or isinstance(y, Cx):
+            from gm2v.values import cx as _cx
+            x, y = _cx(x), _cx(y)
+            out += [z3real(x.re) == z3real(y.re), z3real(x.im) == z3real(y.im)]
+        else:
+            out.append(z3real(x) == z3real(y))
+    return out
+
+def mu_invariant(it, fr):
+    f = fr.this.f
+    idx = it.concretize_index(fr.lookup('bino_idx_DR').v, 4)
+    pidx = it.concretize_index(fr.lookup('bino_idx_pole').v, 4)
+    goal_chi = fr.lookup('MChi_goal').v
+    goal_cha = fr.lookup('MCha_goal').v
+    prec = fr.lookup('precision').v
+    n_it = fr.lookup('it').v
+    sp = spectrum_of(f)
+    cur = z3.And(*[c for n in ('MCha', 'MChi', 'UM', 'UP', 'ZN') for c in mat_eqs(f[n], sp[n])])
+    return [('the spectrum stored in the model is the spectrum of the current Mu, M1, M2', cur),
+            ('bino_idx_DR is the bino-like neutralino of the current mixing matrix', first_argmax(f['ZN'], idx)),
+            ('the goal of the bino-like neutralino is the pole mass of the bino-like pole neutralino', z3real(goal_chi.get(idx, 0)) == z3real(f['physical'].f['MChi'].get(pidx, 0))),
+            ('precision is the distance of the current spectrum from the goals', z3real(prec) == mu_precision(goal_cha, f['MCha'], goal_chi, f['MChi'], idx)),
+            ('iteration counter >= 0', z3real(n_it) >= 0)]
+
+def make_mu_loop_contract(POLE_IDX):
+  @obligation('C05.loop_contract.convert_Mu_M1_M2.pole_bino_%d' % POLE_IDX, fns=[(OS, 'MSSMNoFV_onshell::convert_Mu_M1_M2'), (OS, 'find_bino_like_neutralino')], replay=lambda m, wd: sweep_replay(m, wd))
+  def ob(ctx):
+    """LOOP CONTRACT (any number of iterations; replaces the bounded unrolling) of the fixed-point iteration for Mu, M1, M2:
+    invariant: the stored chargino/neutralino spectrum is the spectrum of the current parameters  &&  bino_idx_DR == first argmax_i |ZN(i,0)|  &&
+               MChi_goal(bino_idx_DR) == pole MChi(bino_idx_pole)  &&  precision == max(max_i |MCha_goal_i - MCha_i|, |MChi_goal(idx) - MChi(idx)|);
+    modifies: bino_idx_DR, MChi_goal, precision, it, this->MassB, MassWB, Mu, MCha, MChi, ZN, UM, UP only;  variant: max_iterations - it.
+    ensures (function, precondition: the spectrum is up to date on entry): exactly one flag operation, on the Mu/M1/M2 flag; if the flag is cleared, the FINAL
+    spectrum (after the closing calculate_DRbar_masses) reproduces both chargino pole masses and, for k = first argmax |ZN_final(i,0)|, the pole mass of the
+    bino-like pole neutralino within the goal; if it is set, the reported precision is that distance (a superfluous warning is not a violation).
+    Callees calculate_MCha/MChi/DRbar_masses by contract 'the spectrum is a function of (M1, M2, Mu, g1, g2, vd, vu)'; one obligation per value of bino_idx_pole in 0..3; detail::find_bino_like_neutralino by its contract (first argmax, C05.selection.*)."""
+    goal, maxit = z3.Real('precision_goal'), z3.Real('max_iterations')
+    stubs, calc_all = functional_spectrum_stubs()
+    stubs.update(flag_stubs(None))
+    stubs['MSSMNoFV_onshell::find_bino_like_neutralino'] = lambda it_, a, t: POLE_IDX
+    def bino_by_contract(it_, a, t):
+        """callee contract of detail::find_bino_like_neutralino (proved on the real body by C05.selection.bino_like_neutralino): the first argmax of |ZN(i,0)|"""
+        if not a:
+            return POLE_IDX                      # the member function of the same name (selection among the POLE neutralinos)
+        for k in range(4):
+            if k == 3 or it_.decide(UnknownBool()):
+                it_.sym.pc.append(first_argmax(a[0], k))
+                if not it_.feasible(z3.BoolVal(True)):
+                    from gm2v.interp import Infeasible
+                    raise Infeasible()
+                return k
+    stubs['find_bino_like_neutralino'] = bino_by_contract
+    stubs['detail::find_bino_like_neutralino'] = bino_by_contract
+    it = Interp(ctx.w, mode='sym', stubs=stubs, div_sides=False)
+    it.nonfinite_unknown = True
+    it.loop_contracts[('MSSMNoFV_onshell::convert_Mu_M1_M2', 0)] = LoopContract(
+        modifies=['bino_idx_DR', 'MChi_goal', 'precision', 'it', 'this.MassB', 'this.MassWB', 'this.Mu', 'this.MCha', 'this.MChi', 'this.ZN', 'this.UM', 'this.UP'],
+        invariant=mu_invariant, choices={'bino_idx_DR': [0, 1, 2, 3]},
+        variant=lambda it_, fr: maxit - z3real(fr.lookup('it').v))
+    def thunk():
+        m = model(it)
+        m.f['verbose_output'] = False
+        calc_all(it, [], m)                      # precondition: spectrum up to date
+        pole_cha, pole_chi = deep_copy(m.f['physical'].f['MCha']), deep_copy(m.f['physical'].f['MChi'])
+        it.call_method(m, 'convert_Mu_M1_M2', [goal, maxit])
+        return (m, pole_cha, pole_chi)
+    ps = it.run_paths(thunk, max_paths=20000)
+    ctx.merge_rules(it)
+    n_ret = n_body = 0
+    for j, (s, r, e) in enumerate(ps):
+        tag = 'path%d' % j
+        if e is not None:
+            ctx.record(tag, FAILED, 'B', 0, 'unexpected exception %s' % e)
+            continue
+        for i, (guards, cond, desc) in enumerate(s.sides):
+            ctx.prove('%s.side%d' % (tag, i), list(guards) + list(s.axioms), cond if is_sym(cond) else z3.BoolVal(bool(cond)), kind='loop:' + desc, check_vacuity=False)
+        if isinstance(r, PathEnd):
+            n_body += 1
+            continue
+        n_ret += 1
+        m, pole_cha, pole_chi = r
+        flags = [x for x in s.effects if isinstance(x, tuple) and x and x[0] in FLAG_METHODS]
+        if len(flags) != 1 or flags[0][0] not in ('flag_no_convergence_Mu_MassB_MassWB', 'unflag_no_convergence_Mu_MassB_MassWB'):
+            ctx.record(tag + '.flags', FAILED, 'B', 0, 'flag operations on this path: %s (expected exactly one, on the Mu/M1/M2 flag)' % ([x[0] for x in flags],))
+            continue
+        # which pole neutralino was selected on this path (the stub's choice is the first UnknownBool decisions): recover it from the goal relation
+        fin = m.f
+        dists = []
+        for k in range(4):
+            for pk in range(4):
+                dists.append((k, pk))
+        cha_d = [absz_(z3real(pole_cha.get(i, 0)) - z3real(fin['MCha'].get(i, 0))) for i in range(2)]
+        pidx = s.pole_idx if hasattr(s, 'pole_idx') else None
+        # final bino index: first argmax of the final mixing matrix (spec of the selection function)
+        claims = []
+        for k in range(4):
+            chi_d = [absz_(z3real(pole_chi.get(pk, 0)) - z3real(fin['MChi'].get(k, 0))) for pk in range(4)]
+            claims.append((k, chi_d))
+        pk = POLE_IDX
+        per_k = []
+        for k, chi_d in claims:
+            dk = [cha_d[0], cha_d[1], chi_d[pk]]
+            if flags[0][0].startswith('unflag'):
+                per_k.append(z3.Implies(first_argmax(fin['ZN'], k), z3.And(*[d <= goal for d in dk])))
+            else:
+                p = z3real(flags[0][1][0])
+                per_k.append(z3.Implies(first_argmax(fin['ZN'], k), z3.And(z3.Or(*[p == d for d in dk]), z3.And(*[p >= d for d in dk]))))
+        ctx.prove(tag + '.warn_or_fit', list(s.pc) + list(s.axioms), z3.And(*per_k), kind='post', check_vacuity=False)
+    ctx.record('paths', PROVED if n_ret >= 2 and n_body >= 1 else FAILED, 'B', 0, '%d paths return, %d paths check one arbitrary iteration of the body' % (n_ret, n_body))
+  return ob
+
+for _k in range(4):
+    make_mu_loop_contract(_k)
+
+# ---- from the loop contract to the flag: the wrappers and convert_me2 -----------------------------------------------------------------------------------
+def smuon_distance(it, f, pole):
+    """|MSm(k) - sorted pole mass(k)| with k the right-like smuon of the CURRENT mixing matrix (the real selection function)"""
+    k = right_index_of(it, f['ZM'])
+    p0, p1 = z3real(pole.get(0, 0)), z3real(pole.get(1, 0))
+    sp = [z3.If(p0 <= p1, p0, p1), z3.If(p0 <= p1, p1, p0)]
+    d = z3real(f['MSm'].get(k, 0)) - sp[k]
+    return z3.If(d >= 0, d, -d)
+
+def achieved_precision_contract(name, cnt):
+    """callee contract shared by convert_me2_fpi_modify (PROVED: C05.loop_contract.convert_me2_fpi_modify) and convert_me2_root_modify (ASSUMED: boost's
+    TOMS748 root finder and a local functor class are outside the extractor): writes me2(1,1), MSm, ZM; returns DBL_MAX or the distance of the
+    right-like smuon of the resulting spectrum from its pole mass"""
+    def stub(it, a, this):
+        cnt[0] += 1
+        this.f['me2'].set(1, 1, z3.Real('me2!%s!%d' % (name, cnt[0])))
+        this.f['MSm'] = Mat(2, 1, [[z3.Real('MSm!%s!%d!%d' % (name, cnt[0], i))] for i in range(2)], 'array', False)
+        this.f['ZM'] = rmat('zm!%s!%d!' % (name, cnt[0]), 2, 2)
+        p = z3.Real('p!%s!%d' % (name, cnt[0]))
+        d = smuon_distance(it, this.f, this.f['physical'].f['MSm'])
+        it.sym.pc.append(z3.Or(p == to_z3(DBL_MAX), p == d))
+        it.sym.effects.append((name, tuple(a)))
+        return p
+    return stub
+
+def make_wrapper(wrapper, callee, assumed):
+    @obligation('C05.achieved_precision.%s' % wrapper, fns=[(OS, 'MSSMNoFV_onshell::' + wrapper)], replay=lambda m, wd: sweep_replay(m, wd))
+    def ob(ctx):
+        """ensures (callee %s by its contract%s): the wrapper returns DBL_MAX, or exactly the distance of the right-like smuon of the spectrum it leaves behind
+        from its pole mass -- also on the path that resets mse2(2,2) after a non-finite intermediate (that path returns DBL_MAX)"""
+        goal, maxit = z3.Real('precision_goal'), z3.Real('max_iterations')
+        cnt = [0]
+        stubs = smuon_stubs(cnt)
+        stubs.update(flag_stubs(None))
+        st = achieved_precision_contract(callee, cnt)
+        stubs['MSSMNoFV_onshell::' + callee] = st
+        stubs[callee] = st
+        it = Interp(ctx.w, mode='sym', stubs=stubs, div_sides=False)
+        it.nonfinite_unknown = True
+        def thunk():
+            m = model(it)
+            m.f['verbose_output'] = False
+            r = it.call_method(m, wrapper, [goal, maxit])
+            return (r, smuon_distance(it, m.f, m.f['physical'].f['MSm']))
+        ps = it.run_paths(thunk, max_paths=200)
+        ctx.merge_rules(it)
+        for j, (s, r, e) in enumerate(ps):
+            if e is not None:
+                ctx.record('path%d' % j, FAILED, 'B', 0, 'unexpected exception %s' % e)
+                continue
+            ret, d = r
+            ctx.prove('path%d' % j, list(s.pc) + list(s.axioms), z3.Or(z3real(ret) == to_z3(DBL_MAX), z3real(ret) == d), check_vacuity=False)
+        ctx.record('paths', PROVED if len(ps) >= 2 else FAILED, 'B', 0, '%d paths' % len(ps))
+        if assumed:
+            ctx.assume_note('ASSUMED callee contract: %s returns DBL_MAX or the distance of the resulting right-like smuon from its pole mass (boost TOMS748 + local functor class: outside the extractor)' % callee)
+    ob.__doc__ = ob.__doc__ % (callee, ' -- ASSUMED' if assumed else ', proved by C05.loop_contract.' + callee)
+    return ob
+
+make_wrapper('convert_me2_fpi', 'convert_me2_fpi_modify', False)
+make_wrapper('convert_me2_root', 'convert_me2_root_modify', True)
+
+@obligation('C05.warn_or_fit.me2.spectrum', fns=[(OS, 'MSSMNoFV_onshell::convert_me2')], replay=lambda m, wd: sweep_replay(m, wd))
+def _(ctx):
+    """ensures (callees convert_me2_fpi / convert_me2_root by the contract C05.achieved_precision.* proves for them; precision_goal < DBL_MAX): if convert_me2
+    leaves the me2 flag cleared, the right-like smuon of the spectrum it leaves behind is within the goal of its pole mass -- warn-or-fit stated on the
+    final state, for any number of iterations of either method"""
+    goal, maxit = z3.Real('precision_goal'), z3.Real('max_iterations')
+    cnt = [0]
+    stubs = flag_stubs(None)
+    for w_ in ('convert_me2_fpi', 'convert_me2_root'):
+        st = achieved_precision_contract(w_, cnt)
+        stubs['MSSMNoFV_onshell::' + w_] = st
+        stubs[w_] = st
+    it = Interp(ctx.w, mode='sym', stubs=stubs, div_sides=False)
+    def thunk():
+        m = model(it)
+        m.f['verbose_output'] = False
+        it.call_method(m, 'convert_me2', [goal, maxit])
+        return smuon_distance(it, m.f, m.f['physical'].f['MSm'])
+    ps = it.run_paths(thunk, max_paths=200)
+    ctx.merge_rules(it)
+    n_unflag = 0
+    for j, (s, d, e) in enumerate(ps):
+        if e is not None:
+            ctx.record('path%d' % j, FAILED, 'B', 0, 'unexpected exception %s' % e)
+            continue
+        flags = [x for x in s.effects if isinstance(x, tuple) and x and x[0] in FLAG_METHODS]
+        if len(flags) != 1 or flags[0][0] not in ('flag_no_convergence_me2', 'unflag_no_convergence_me2'):
+            ctx.record('path%d.flags' % j, FAILED, 'B', 0, 'flag operations on this path: %s' % ([x[0] for x in flags],))
+            continue
+        if flags[0][0].startswith('unflag'):
+            n_unflag += 1
+            ctx.prove('path%d.fit' % j, [goal < to_z3(DBL_MAX)] + list(s.pc) + list(s.axioms), d <= goal, check_vacuity=False)
+        else:
+            ctx.record('path%d.warned' % j, PROVED, 'B', 0, 'the warning is set on this path')
+    ctx.record('paths', PROVED if n_unflag >= 2 else FAILED, 'B', 0, '%d paths, %d leave the flag cleared' % (len(ps), n_unflag))
